@@ -441,8 +441,17 @@ fn snd_decision(two_members: bool) {
     assert!(n <= (x_off as usize) + (y_off as usize), "C05/C07/C12: a member that is scheduled for deletion or not ahead of the digest was offered");
     assert!(n >= (x_off as usize) + (y_off as usize), "C01/C14: a member that is ahead of the digest (and not scheduled for deletion) was not offered");
     let mut i = 0;
-    if x_off { assert!(off[i].0 == b'x' && off[i].1 == x_from && off[i].2 == xg && off[i].3 == xm, "C01/C02/C14: wrong start version for the sender-side reset decision"); i += 1; }
-    if y_off { assert!(off[i].0 == b'y' && off[i].1 == y_from && off[i].2 == yg && off[i].3 == ym, "C01/C02/C14: wrong start version for the sender-side reset decision (second member)"); }
+    if x_off {
+        assert!(off[i].0 == b'x' && off[i].2 == xg && off[i].3 == xm, "C03/C07/C14: offered member / watermark / max version differ from the sender's copy");
+        assert!(off[i].1 <= x_from, "C02/C14: start version above the reference (a reset was missed: entries in between are never sent)");
+        assert!(off[i].1 >= x_from, "C01/C14: start version below the reference (restart from 0 although the receiver will not wipe: refused when truncated)");
+        i += 1;
+    }
+    if y_off {
+        assert!(off[i].0 == b'y' && off[i].2 == yg && off[i].3 == ym, "C03/C07/C14: offered member / watermark / max version differ from the sender's copy (second member)");
+        assert!(off[i].1 <= y_from, "C02/C14: start version above the reference (second member)");
+        assert!(off[i].1 >= y_from, "C01/C14: start version below the reference (second member)");
+    }
     std::mem::forget(cs); std::mem::forget(digest); std::mem::forget(sched);
 }
 
